@@ -185,6 +185,13 @@ Theorem C15_time_freq_needs_datetime : forall P now a,
 Proof. exact time_freq_needs_datetime. Qed.
 Print Assumptions C15_time_freq_needs_datetime.
 
+(* interval 0 / None / "" / False is rejected instead of being handed to the engine (which would
+   never advance: /repo b708aa9) *)
+Theorem C15_falsy_interval_rejected : forall P now a,
+  truthy (dflt (AInt 1) (s_interval a)) = false -> is_ok (wire P now a) = false.
+Proof. exact falsy_interval_rejected. Qed.
+Print Assumptions C15_falsy_interval_rejected.
+
 Theorem C15_bad_frequency_rejected : forall P now a fq,
   s_freq a = Some fq ->
   (forall p, norm_freq fq p = Err (DGE "")) ->
@@ -362,5 +369,8 @@ Example C15_ex_errors :
   wire ex_parser (mkDT 0 0 None) (mk_args "Hourly" (ADate 738580) None None) = Err (DGE "") /\
   wire ex_parser (mkDT 0 0 None) (mk_args "BLAH" (ADate 738580) None None) = Err (DGE "") /\
   wire ex_parser (mkDT 0 0 None) (mk_args "daily" (ABool true) None None) = Err (Internal "TypeError") /\
-  wire ex_parser (mkDT 0 0 None) (mk_args "daily" (ADate 738580) None (Some (ABool true))) = Err (Internal "TypeError").
+  wire ex_parser (mkDT 0 0 None) (mk_args "daily" (ADate 738580) None (Some (ABool true))) = Err (Internal "TypeError") /\
+  wire ex_parser (mkDT 0 0 None)
+       (mkS (Some (AStr "daily")) (Some (ADate 738580)) (Some (AInt 0)) None None None None None None None None
+            None None None None None None None None) = Err (DGE "").
 Proof. vm_compute. repeat split; reflexivity. Qed.
